@@ -1,5 +1,6 @@
 import BddVerif.Drive.Util
 import BddVerif.Model.Select
+import BddVerif.Drive.C11Wide
 /-!
 Driver for C11: replays each observed case through the model of the selectors (`Model/Select.lean`) and
 evaluates the property's own predicate on what the Rust code returned, by brute force and independently of
@@ -270,6 +271,8 @@ def handle (key : String) (ins obs : List String) : Verdict :=
           tags := ["oprand", op, if fl.length < n then "shortflips" else "flips"] }
       | none => Verdict.bad "result"
     | _, _ => Verdict.bad "args"
+  | "C11.wide", _ => C11Wide.handleWide key ins obs
+  | "C11.widerand", _ => C11Wide.handleWide key ins obs
   | "C11.nc", [a] =>
     -- non-canonical input: the property makes no claim, only the model must follow the code (panics included)
     match parseArr? a with
